@@ -677,21 +677,19 @@ class InterpolatableFunction(ABC):
         # what to append to lower end
         if newMin < self._rangeMin and pointsMin > 0:
 
-            ## Point spacing to use at new lower end
-            spacing = np.abs(self._rangeMin - newMin) / pointsMin
-            # arange stops one spacing before the max value, which is what we want
-            appendPointsMin = np.arange(newMin, self._rangeMin, spacing)
+            # pointsMin equally spaced points starting at newMin and stopping one spacing
+            # before the current lower end (linspace is robust to rounding, arange is not)
+            appendPointsMin = np.linspace(
+                newMin, self._rangeMin, pointsMin, endpoint=False
+            )
         else:
             appendPointsMin = np.array([])
 
         # what to append to upper end
         if newMax > self._rangeMax and pointsMax > 0:
 
-            ## Point spacing to use at new upper end
-            spacing = np.abs(newMax - self._rangeMax) / pointsMax
-            appendPointsMax = np.arange(
-                self._rangeMax + spacing, newMax + spacing, spacing
-            )
+            # pointsMax equally spaced points ending exactly at newMax
+            appendPointsMax = np.linspace(self._rangeMax, newMax, pointsMax + 1)[1:]
         else:
             appendPointsMax = np.array([])
 
@@ -706,6 +704,10 @@ class InterpolatableFunction(ABC):
         fxRange: np.ndarray = np.concatenate(
             (appendValuesMin, np.asarray(self._interpolationValues), appendValuesMax)
         )
+
+        # Extensions narrower than the floating point spacing would repeat abscissae
+        xRange, uniqueIndices = np.unique(xRange, return_index=True)
+        fxRange = fxRange[uniqueIndices]
 
         self.newInterpolationTableFromValues(xRange, fxRange)
 
